@@ -1254,3 +1254,50 @@ Section ProviderFacts.
       + exfalso. exact (last_val_none_in str_eqb str_eqb_spec normalize _ _ _ _ E Hr eq_refl).
   Qed.
 End ProviderFacts.
+
+(** * Sets assembled from several members (domain_set with [sets:], base_domain with [$tag]) *)
+
+Section GroupFacts.
+  Context {V : Type}.
+  Variable re_valid : str -> bool.
+  Variable re_match : str -> str -> bool.
+
+  Lemma group_matches_app (g1 g2 : list (@mix V)) n :
+    group_matches re_match (g1 ++ g2) n = group_matches re_match g1 n || group_matches re_match g2 n.
+  Proof. unfold group_matches. apply existsb_app. Qed.
+
+  Lemma group_matches_concat (gs : list (list (@mix V))) n :
+    group_matches re_match (concat gs) n = existsb (fun g => group_matches re_match g n) gs.
+  Proof.
+    induction gs as [|g gs IH]; [reflexivity|]. cbn [concat existsb]. rewrite group_matches_app, IH. reflexivity.
+  Qed.
+
+  (** a referenced set is consumed as a whole: nesting does not matter, only the
+      union of all members does; the set's own matcher counts when it is kept *)
+  Lemma set_members_matches (own : @mix V) (refs : list (list (@mix V))) n :
+    group_matches re_match (set_members own refs) n =
+    (negb (mix_len own =? 0) && group_matches re_match [own] n)
+    || existsb (fun g => group_matches re_match g n) refs.
+  Proof.
+    unfold set_members. rewrite group_matches_app, group_matches_concat.
+    destruct (mix_len own =? 0); reflexivity.
+  Qed.
+
+  (** A group whose members were loaded from the rule lists [rss] matches a name
+      iff some rule of some member describes it: the union of the members' rules. *)
+  Lemma group_iff dflt (rss : list (list (str * V))) n :
+    group_matches re_match (map (fun rs => fst (mix_add_all re_valid dflt rs empty_mix)) rss) n = true <->
+    exists rs s v, In rs rss /\ In (s, v) rs /\ describes re_valid re_match dflt s n.
+  Proof.
+    unfold group_matches. rewrite existsb_exists. split.
+    - intros (m & Hm & H). apply in_map_iff in Hm as (rs & <- & Hrs).
+      assert (Hne : mix_allowed re_match (fst (mix_add_all re_valid dflt rs empty_mix)) n <> [])
+        by (destruct (mix_allowed re_match (fst (mix_add_all re_valid dflt rs empty_mix)) n); [discriminate H | discriminate]).
+      apply mix_iff in Hne as (s & v & Hin & Hd). exists rs, s, v. auto.
+    - intros (rs & s & v & Hrs & Hin & Hd). exists (fst (mix_add_all re_valid dflt rs empty_mix)).
+      split; [apply in_map_iff; exists rs; auto|].
+      assert (Hne : mix_allowed re_match (fst (mix_add_all re_valid dflt rs empty_mix)) n <> [])
+        by (apply mix_iff; exists s, v; auto).
+      destruct (mix_allowed re_match (fst (mix_add_all re_valid dflt rs empty_mix)) n); [contradiction | reflexivity].
+  Qed.
+End GroupFacts.
